@@ -1008,7 +1008,7 @@ fn check_case(sb: &Sandbox, opts: &Opts, idx: usize, case: &Case, per_op: usize,
             // a compiler that hangs costs the watchdog's whole budget per run: two hangs of one
             // operation are reported, the rest of its plans is not needed; and a worker that has
             // met many hangs stops exploring (the finding is made, the check must still end)
-            if hangs_of_this_op >= 2 || HANGS_SEEN.load(std::sync::atomic::Ordering::Relaxed) >= 8 {
+            if hangs_of_this_op >= 2 || HANGS_SEEN.load(std::sync::atomic::Ordering::Relaxed) >= 6 {
                 break;
             }
             let obs = execute_vs(sb, &base, op, plan, baseline.written.as_ref());
@@ -1227,7 +1227,7 @@ pub fn child(opts: &Opts, k: usize, n: usize, resume_after: i64, base: &str) -> 
         if i % n != k || (i as i64) <= resume_after {
             continue;
         }
-        if HANGS_SEEN.load(std::sync::atomic::Ordering::Relaxed) >= 8 {
+        if HANGS_SEEN.load(std::sync::atomic::Ordering::Relaxed) >= 6 {
             break;
         }
         let _ = std::fs::write(format!("{base}.world"), serde_json::to_vec(&json!({"idx": i, "case": case.name, "files": files_json(&case.files)})).unwrap());
